@@ -1,135 +1,5 @@
-// ======================================================================================
-// Reachability along accepted edges and what a slice must be (C13).  Pure spec/proof.
-// `pf(v, to, label)` is the (deterministic) acceptance predicate of slice_some().
-// ======================================================================================
-
-pub type Pf = spec_fn(usize, usize, Label) -> bool;
-
-/// the acceptance predicate handed to slice_some() is total and deterministic
-pub closed spec fn pred_ok<F: Fn(usize, usize, Label) -> bool>(p: F) -> bool {
-    &&& forall|a: usize, b: usize, c: Label| #[trigger] p.requires((a, b, c))
-    &&& forall|a: usize, b: usize, c: Label| !(#[trigger] p.ensures((a, b, c), true) && p.ensures((a, b, c), false))
-}
-
-/// pf is the predicate p computes: an edge is accepted iff p cannot answer `false` on it
-pub closed spec fn pf_is<F: Fn(usize, usize, Label) -> bool>(p: F, pf: Pf) -> bool {
-    forall|a: usize, b: usize, c: Label| #[trigger] pf(a, b, c) == !p.ensures((a, b, c), false)
-}
-
-/// every edge target is an id below the capacity, and no vertex points at itself: both are established by
-/// bind()'s documented preconditions (endpoints present and distinct) and kept by every call (trace lemma L13)
-pub closed spec fn targets_ok(a: A) -> bool {
-    forall|u: int, j: int| 0 <= u < a.edges.len() && 0 <= j < a.edges[u].len()
-        ==> (#[trigger] a.edges[u][j]).1 < a.edges.len() && a.edges[u][j].1 != u
-}
-
-/// there is an accepted edge u --l--> w
-pub closed spec fn acc(a: A, pf: Pf, u: usize, w: usize) -> bool {
-    u < a.edges.len() && exists|j: int| 0 <= j < a.edges[u as int].len() && (#[trigger] a.edges[u as int][j]).1 == w
-        && pf(u, w, a.edges[u as int][j].0)
-}
-
-/// p is a path v = p[0] -> p[1] -> ... -> p.last() = w along accepted edges
-pub closed spec fn is_path(a: A, pf: Pf, v: usize, w: usize, p: Seq<usize>) -> bool {
-    &&& p.len() > 0 && p[0] == v && p[p.len() - 1] == w
-    &&& forall|i: int| 0 <= i < p.len() - 1 ==> acc(a, pf, #[trigger] p[i], p[i + 1])
-}
-
-pub closed spec fn reachable(a: A, pf: Pf, v: usize, w: usize) -> bool {
-    exists|p: Seq<usize>| is_path(a, pf, v, w, p)
-}
-
-/// at most k ids are reachable from v
-pub closed spec fn reach_bound(a: A, pf: Pf, v: usize, k: int) -> bool {
-    exists|s: Set<usize>| s.len() <= k && forall|w: usize| reachable(a, pf, v, w) ==> #[trigger] s.contains(w)
-}
-
-pub proof fn lemma_reach_self(a: A, pf: Pf, v: usize)
-    ensures reachable(a, pf, v, v),
-{
-    assert(is_path(a, pf, v, v, seq![v]));
-}
-
-pub proof fn lemma_reach_step(a: A, pf: Pf, v: usize, u: usize, w: usize)
-    requires reachable(a, pf, v, u), acc(a, pf, u, w),
-    ensures reachable(a, pf, v, w),
-{
-    let p = choose|p: Seq<usize>| is_path(a, pf, v, u, p);
-    let q = p.push(w);
-    assert forall|i: int| 0 <= i < q.len() - 1 implies acc(a, pf, #[trigger] q[i], q[i + 1]) by {
-        if i < p.len() - 1 { assert(q[i] == p[i] && q[i + 1] == p[i + 1]); } else { assert(q[i] == u && q[i + 1] == w); }
-    }
-    assert(is_path(a, pf, v, w, q));
-}
-
-/// a set that contains v and is closed under accepted edges contains every vertex of a path from v
-pub proof fn lemma_closed_contains_path(a: A, pf: Pf, d: Set<usize>, p: Seq<usize>, k: int)
-    requires
-        p.len() > 0, d.contains(p[0]), 0 <= k < p.len(),
-        forall|x: usize, y: usize| d.contains(x) && #[trigger] acc(a, pf, x, y) ==> d.contains(y),
-        forall|i: int| 0 <= i < p.len() - 1 ==> acc(a, pf, #[trigger] p[i], p[i + 1]),
-    ensures d.contains(p[k]),
-    decreases k,
-{
-    if k > 0 {
-        lemma_closed_contains_path(a, pf, d, p, k - 1);
-        assert(acc(a, pf, p[k - 1], p[k - 1 + 1]));
-    }
-}
-
-/// ... hence everything reachable from v
-pub proof fn lemma_closed_contains_reach(a: A, pf: Pf, v: usize, d: Set<usize>, w: usize)
-    requires
-        d.contains(v),
-        forall|x: usize, y: usize| d.contains(x) && #[trigger] acc(a, pf, x, y) ==> d.contains(y),
-        reachable(a, pf, v, w),
-    ensures d.contains(w),
-{
-    let p = choose|p: Seq<usize>| is_path(a, pf, v, w, p);
-    lemma_closed_contains_path(a, pf, d, p, p.len() - 1);
-}
-
-/// a set of ids all below n is finite and has at most n elements
-pub proof fn lemma_bounded_set(s: Set<usize>, n: nat)
-    requires forall|x: usize| s.contains(x) ==> x < n,
-    ensures s.len() <= n,
-    decreases n,
-{
-    if n == 0 {
-        assert(s =~= Set::<usize>::empty());
-    } else {
-        let m = (n - 1) as usize;
-        let t = s.remove(m);
-        assert forall|x: usize| t.contains(x) implies x < n - 1 by { assert(s.contains(x)); }
-        lemma_bounded_set(t, (n - 1) as nat);
-        if s.contains(m) {
-            assert(s =~= t.insert(m));
-        } else {
-            assert(s =~= t);
-        }
-    }
-}
-
-/// a duplicate-free list whose entries all lie in a finite set is no longer than the set is large
-pub proof fn lemma_nodup_len(ms: Seq<usize>, t: Set<usize>)
-    requires no_dup(ms), forall|i: int| 0 <= i < ms.len() ==> t.contains(#[trigger] ms[i]),
-    ensures ms.len() <= t.len(),
-    decreases ms.len(),
-{
-    if ms.len() > 0 {
-        let l = ms.last();
-        let r = ms.drop_last();
-        assert(ms[ms.len() - 1] == l);
-        assert forall|i: int| 0 <= i < r.len() implies t.remove(l).contains(#[trigger] r[i]) by {
-            assert(r[i] == ms[i]);
-            assert(ms[i] != ms[ms.len() - 1]);
-        }
-        assert(no_dup(r)) by {
-            assert forall|i: int, j: int| 0 <= i < j < r.len() implies r[i] != r[j] by { assert(r[i] == ms[i] && r[j] == ms[j]); }
-        }
-        lemma_nodup_len(r, t.remove(l));
-    }
-}
+// (the reachability core - paths, reachable, closed sets, bounded sets - is in model/reachcore.rs)
+//@include model/reachcore.rs
 
 // -------------------------------- the slice --------------------------------
 
@@ -723,21 +593,4 @@ pub proof fn lemma_sl_bind_pre(src: A, d: Set<usize>, pf: Pf, g: A, v1: int, j: 
 {
     let v2 = src.edges[v1][j].1 as int;
     lemma_sl_room(g, d, v1, v2);
-}
-
-/// the predicate that accepts every edge (slice(), merge())
-pub closed spec fn pf_all() -> Pf { |a: usize, b: usize, c: Label| true }
-
-/// an accepted edge u -> w in front of a path from w
-pub proof fn lemma_reach_prepend(a: A, pf: Pf, u: usize, w: usize, k: usize)
-    requires acc(a, pf, u, w), reachable(a, pf, w, k),
-    ensures reachable(a, pf, u, k),
-{
-    let p = choose|p: Seq<usize>| is_path(a, pf, w, k, p);
-    let q = seq![u] + p;
-    assert forall|i: int| 0 <= i < q.len() - 1 implies acc(a, pf, #[trigger] q[i], q[i + 1]) by {
-        if i == 0 { assert(q[0] == u && q[1] == p[0]); } else { assert(q[i] == p[i - 1] && q[i + 1] == p[i - 1 + 1]); }
-    }
-    assert(q[q.len() - 1] == p[p.len() - 1]);
-    assert(is_path(a, pf, u, k, q));
 }
